@@ -15,9 +15,9 @@ CHECKS = {
     "C15": ("model_checking",
             "stateless depth-first exploration of every schedule with at most 2 preemptions of multi-threaded drivers on the real VM under a controlled scheduler (hook H7 gates; one scheduling point per gate; fresh forked engine per schedule), with in-scheduler scan-window oracle and a sequential-consistency reference for results",
             "Gates: every instruction dispatch, every step of entering and leaving a safepoint (publish, finished, park, retract, left), every step of stopping, waiting for, scanning and "
-            "resuming the world, thread start / exit / spawn. 16 two-thread and 5 three-thread drivers built from {assign g, read g, full collection, allocate, primitive call, loop, define}. "
+            "resuming the world, thread start / exit / spawn. 16 two-thread, 5 three-thread, 5 phased (threads that exited before the others were spawned; a channel orders reader after writer) and 6 in-flight drivers (a freshly allocated value held only by an operation in progress while another thread collects) built from {assign g, read g, full collection, allocate, primitive call, loop, define, send, recv}. "
             "Oracle (i): no thread passes an instruction-dispatch or safepoint-left gate while another thread is between scan-begin and scan-end on its state; (ii) the values read by all "
-            "threads and the final g are the result of some interleaving of the script-level reads and writes. Preemption bound 2 (three threads: 1; thorough: 2). Blocking in native code "
+            "threads and the final g are the result of some interleaving of the script-level reads and writes; (iii) no access to a reclaimed heap slot (counter of hook H4). Preemption bound 2 (three threads: 1; thorough: 2). Blocking in native code "
             "is recognised from the kernel state of the thread (sleeping for 5 consecutive 1 ms polls); woken threads are waited for before the next choice so enabled sets do not depend "
             "on timing; replays that diverge are counted, not judged.",
             "Sequentially consistent interleavings at gate granularity only: reorderings of the relaxed flag accesses are not explored. More than 3 threads, longer drivers and higher bounds "
@@ -25,9 +25,9 @@ CHECKS = {
             "DESIGN.md §3 C15"),
     "C16": ("model_checking",
             "the same controlled scheduler and stateless depth-first exploration as C15 (preemption bound 2; three threads 1) over drivers in which world-stopping operations meet each other and blocked, exiting and starting threads; progress oracle in the scheduler (deadlock / livelock / hang) and allowed-result sets for joins, channels and mutexes",
-            "18 drivers x {native code on, off}: two / three threads assigning or defining globals and collecting at the same time; a thread blocked in thread-join!, channel/recv (directly and "
+            "21 drivers x {native code on, off}: two / three threads assigning or defining globals and collecting at the same time; a thread blocked in thread-join!, channel/recv (directly and "
             "from inside map), lock-acquire! or a sleep while another stops the world; a thread exiting or being spawned (also by a spawned thread) during a collection; producers and a consumer on "
-            "a channel with collections in between; joining twice. Oracle: the evaluation completes (no runnable thread for 1.5 s with unfinished threads = deadlock; only spinning threads "
+            "a channel with collections in between; joining twice; blocking primitives in tail position of natively compiled functions. Plus a free-running grid (code that passes no gate is atomic under the scheduler): a stop-the-world request against a thread executing each of the 37 C17 program shapes x {native code on, off} x {separate unit, same unit, module}. Oracle: the evaluation completes (no runnable thread for 1.5 s with unfinished threads = deadlock; only spinning threads "
             "runnable for 1.5 s = livelock; 20 s = hang) and its value is allowed by the script's logic (every sent value received once and in order per sender, join result once, second join "
             "an error value, mutex-protected counter exact).",
             "Same bounds as C15. 4..8 threads are outside the exploration.",
@@ -59,7 +59,7 @@ CHECKS = {
             "small-scope exhaustive enumeration of module graphs x export profiles x require modifiers x orders of requiring programs on one real engine, against a Python visibility/instantiation model; exhaustive contract-boundary argument grid",
             "Graphs {single, chain, fan-in, diamond, chain of 3} over generated files; every module has a private helper of the same spelling, x / y in {absent, private, "
             "provided, contract/out} and a provided aggregate of everything it imported; every edge carries one of {plain, only-in, only-in with renaming, prefix-in, "
-            "prefix-in(only-in), only-in naming a private identifier}; for the diamond every ordered sequence of up to 3 of 4 requiring programs (plus repeats) runs on one "
+            "prefix-in(only-in) with and without renaming, only-in swapping two names, only-in naming a private identifier}; the requires of a program are one compilation unit each or all in one unit; for the diamond every ordered sequence of up to 3 of 4 requiring programs (plus repeats) runs on one "
             "engine. After every program every identifier of the candidate universe (names x prefixes in play) is evaluated in a unit of its own: exactly the model's value, "
             "a contract error or a free-identifier error. Module bodies print a marker: exactly one per instantiated module over the history. 16 histories in which a "
             "module fails (syntax / free identifier / run-time / arity) and is corrected. Contract grid: arity 0..4, different predicate per position, all argument tuples "
@@ -75,7 +75,7 @@ CHECKS = {
             "spellings; templates are quoted so the expected datum comes from vp/ref_macro.py; 150 definitions and uses share one engine so that state kept "
             "between expansions is exercised, and a mismatch is re-run alone and behind each single earlier case. Hygiene: every program is run with colliding "
             "and with non-colliding spellings of template binders / use-site binders and must give the same value (8 binder kinds x 7 use sites x 5 spellings x "
-            "{same, earlier} unit; 8 free identifiers x 5 shadowing forms; nested, recursive, macro-defining macros; module macros incl. a three-file chain "
+            "{same, earlier} unit; 8 free identifiers x 5 shadowing forms; free identifiers inside ellipsis sub-templates x 4 shadowing forms; 3 literals spelled like a use-site binding x 9 use sites with up to 3 scopes in between; nested, recursive, macro-defining macros; module macros incl. a three-file chain "
             "with contract/out).",
             "The R7RS 'x ... ...' template form and (... ...) escapes are not implemented by Steel and are outside the grid; identifiers with the reserved ## prefix "
             "are not used as user spellings. Patterns deeper than two ellipsis levels and argument tuples longer than 3 are outside the bound.",
@@ -93,7 +93,7 @@ CHECKS = {
             "(a) Every ordered pair of a universe of ~2000 (thorough ~4000) values, in which the same structural value exists as a tree, as a DAG and as the "
             "identical object, is compared both ways on the real engine; equal? must coincide with structural equality of Python twins, and equal immutable "
             "values must be interchangeable as hash keys and set members; sequences of comparisons on fresh temporaries must be history independent. "
-            "(b) Breadth-first search to depth 3 (4) over every operation of lists, immutable vectors, hash maps, hash sets and strings with boundary indices; "
+            "(b) Breadth-first search to depth 3 (4) over every operation of lists, immutable vectors, mutable vectors (vector-set!, fill with ranges, push, every vector-copy! (at, start, end) from another vector, overlapping self copies, swap), hash maps, hash sets and strings with boundary indices; "
             "each transition runs on the implementation (uniquely owned operand and operand that stays referenced) and must equal the model, errors included.",
             "Trusted: the Python twins/models and the encoder hook. Immutable-vs-mutable vector equality, NaN and mutable keys are left unspecified.",
             "DESIGN.md §3 C11"),
@@ -133,8 +133,8 @@ CHECKS = {
     "C03": ("model_checking",
             "explicit-state BFS over functional-update sequences per collection kind (state = model value) with every transition executed on the real engine under every holding mode of the operand, against Python models",
             "For lists, immutable vectors, hash maps, hash sets and strings: every model state reachable by 1 (thorough 2) updates x every update of the alphabet x "
-            "17 ways the operand is held at the update site (global, live local, last use with a live alias, last use in one branch, loop-carried keeping all "
-            "versions, closure capture, inside list/vector/box/hash, rest argument, map callback, continuation, cloned by / moved to another thread), plus binary "
+            "24 ways the operand is held at the update site (global, live local, last use with a live alias, last use in one branch, loop-carried keeping all "
+            "versions, closure capture, inside list/vector/box/hash, rest argument, map callback, continuation, cloned by / moved to another thread, uniquely referenced local / temporary / argument = the in-place path itself, fifth or sixth parameter read twice), plus binary "
             "operations over all pairs of states under 7 ownership patterns and with one object as both operands; JIT on and off. The result must equal the "
             "model update of a fresh copy and every other holder must still see the old value.",
             "Trusted: the Python models (vp/c11_coll.py). Thread hand-offs are sequenced; interleavings of the reference-count operations are C05's subject.",
@@ -143,7 +143,7 @@ CHECKS = {
             "exhaustive enumeration of root locations x collection schedules: every program of a root-location grammar is run with a forced full collection at every single allocation ordinal, at all of them, and at explicit collection requests (fault-injection style enumeration of collection points on the real collector)",
             "~40 root locations (pending argument, let temporary, closures on the stack / in globals / nested, assigned captured variables, continuations, handlers, "
             "globals incl. shadowed ones, containers, cycles, callbacks of native higher-order procedures, transducers, sort comparators, apply/rest arguments, loop "
-            "variables, deep recursion frames, another thread's stack, weak boxes) x 4 mutable object kinds; for a program with A allocations: no forced collection, "
+            "variables, deep recursion frames, another thread's stack, weak boxes) x 5 mutable object kinds (box, vector, struct, nested, empty vector); for a program with A allocations: no forced collection, "
             "forced at each ordinal 1..A, at every odd ordinal, at every allocation; JIT on/off. The sentinel values must read back unchanged and no access may touch a reclaimed slot.",
             "Trusted: hook H4 (forced collections use the call site's real roots and skip heap growth); host-rooted values and TLS are not in the grammar yet.",
             "DESIGN.md §3 C04"),
